@@ -13,6 +13,18 @@ CLAIMED = {
          "Trusted: go/ssa, symgo semantics, the sh word-splitting model and sq_dequote transcription in harness/C41, z3. Outside: longer inputs, non-POSIX shells."),
 }
 
+CLAIMED.update({
+ "C13": ("Bounded solver verdict: for every name of <= N bytes (all byte values except NUL; also after the fixed prefixes refs/heads/, refs/tags/, refs/) "
+         "ReferenceName.Validate()==nil iff a transcription of git's check_refname_format(name,0) accepts and go-git's documented leading-dash rule does not apply. "
+         "One genuine disagreement class (a component equal to '@') is a recorded known finding; every other disagreement raises VIOLATION.",
+         "Trusted: go/ssa, symgo, the refs.c transcription in harness/C13 (cross-validated against git check-ref-format on 6000 random names while building), the character-class model of the ctrlSeqs regexp, z3. Outside: longer names; HEAD is excluded as go-git's documented special case."),
+ "C32": ("Bounded solver verdict on the sparse-selection kernel: for every pair of entry names (<= NAMELEN bytes over {a,b,/}) and every <= PATTERNS directories, after Index.SkipUnless(D) an entry is skip-worktree iff it lies outside every directory by whole path components.",
+         "Trusted: go/ssa, symgo, z3. Only the index-marking kernel is encoded; the worktree materialisation is whole-porcelain (see C25) and is outside the claim."),
+ "C34": ("Bounded solver verdict: hex length codec over the full 16-bit range; ParseLength accept set over all 2^32 headers; Write size limit at the boundary; "
+         "round trip of <= PKTS packets with symbolic payloads through Read, Scanner and PeekLine/ReadLine under solver-chosen stream split points; resynchronisation after an oversized packet.",
+         "Trusted: go/ssa, symgo (bufio, bytes, io interpreted from their SSA), sync.Pool model, z3. Outside: payloads longer than the bound, more split points than CUTS, sideband mux/demux (not yet built)."),
+})
+
 NA_REASON = {
  "C05": "needs the real SHA-1 compression function on published collision blocks and Go's cross-package init order; the hash is necessarily an uninterpreted stub under symbolic execution",
  "C11": "read paths = OS filesystem + real zlib + caches over histories; solver-sized pieces are claimed under C06/C09/C10/C24",
